@@ -171,6 +171,18 @@ def declare(spec):
         ensures=[("C17:one-more-at-that-node-only", "unit_vector_update(as_list(self.state[1], 'TrackerState'), node.id_number - 1, 1)")],
         props=["C17"])
 
+    M["mb_cell"] = "lambda t, r, c: as_list(t.state[0], 'TrackerCellRow2')[r][c]"
+    add(spec, "MatrixBlocking.change_state_block", refines="StateTracker.change_state_block", types={"node": NODE, "destination": NODE, "ind": IND},
+        requires=[INV("mb_ok(self)"), "1 <= node.id_number and node.id_number <= nnodes()", "1 <= destination.id_number and destination.id_number <= nnodes()",
+                  INV("forall_int(lambda r: implies(0 <= r and r < nnodes(), len(as_list(self.state[0], 'TrackerCellRow2')[r]) == nnodes()), "
+                      "trigger=lambda r: as_list(self.state[0], 'TrackerCellRow2')[r])")],
+        modifies=["$seq@mb_cell(self, node.id_number - 1, destination.id_number - 1)", "increment@self"],
+        ensures=[("C17:the-new-blockage-gets-the-next-rank-in-the-cell-of-that-pair-of-nodes",
+                  "S(mb_cell(self, node.id_number - 1, destination.id_number - 1)) == "
+                  "append1(old(S(mb_cell(self, node.id_number - 1, destination.id_number - 1))), old(self.increment))"),
+                 ("C17:ranks-advance-by-one", "self.increment == old(self.increment) + 1")],
+        props=["C17"])
+
     # ---- the ghost protocol of contracts/c_assumed.py is tracker-independent: every refinement performs the same ghost
     # statement and re-proves the class-level postcondition (so each built-in tracker is checked to refine it)
     for key, c in list(spec.contracts.items()):
